@@ -19,4 +19,8 @@ Check2 ==
 cVals == [names |-> {N(<<"a">>), N(<<"B">>)}, anames |-> {N(<<"x">>), N(<<"k", "-", "x">>)},
           avals |-> {<<"<", "&", ">">>, <<"\"", "'">>, <<" ", "7", " ">>, <<"~", "'">>},
           texts |-> {<<"<", "&", ">">>, <<"\"", "'">>, <<" ", "v", "\t">>, <<"7">>, <<"~", "&", "\n", "~">>, <<"\n">>}, maxattrs |-> 1, comments |-> FALSE]
+\* values with exactly ONE kind of special character each (an escaping routine that looks for "any special" first)
+cVals1 == [names |-> {N(<<"a">>)}, anames |-> {N(<<"x">>), N(<<"y">>)},
+           avals |-> {<<"\"">>, <<"'">>, <<"<">>, <<">">>, <<"&">>, <<"v">>},
+           texts |-> {<<"\"">>, <<"'">>, <<"<">>, <<">">>, <<"&">>}, maxattrs |-> 2, comments |-> FALSE]
 =============================================================================
